@@ -413,3 +413,6 @@ func VerifTrav_StopCancelsInFlight() {
 	<-op.Stopped()
 	verifReach("end")
 }
+
+// The honest network again; the spec runs this entry with one preemption anywhere.
+func VerifTrav_HonestP1() { VerifTrav_Honest() }
